@@ -424,13 +424,18 @@ def c18(tier):
         for local in (0, 1):
             for t in ((1, 2, 3) if tier == "quick" else (1, 2, 3, 4)):
                 units.append(U(pkg, "VerifC18Follow", weight=t * t, nconcrete=0, flat=flat, local=local, toggles=t))
+            # Err-prefixed target state (the Add pipe carries Exception too), Exception possibly active beforehand
+            for t in ((1, 2) if tier == "quick" else (1, 2, 3)):
+                units.append(U(pkg, "VerifC18Follow", weight=t * t, nconcrete=0, flat=flat, local=local, toggles=t, err=1))
     units.append(U(pkg, "VerifC18Any", weight=3, steps=3 if tier == "quick" else 4))
     return {"units": units,
             "bounds": {"toggles": "1..3 (thorough 4) alternating activations / deactivations of the piped source state", "variants": "flat / non-flat x local / non-local target",
                        "schedules": "every forked delivery may run before any later toggle or at quiescence, in any order (symbolic choices; replayed natively with gates)",
-                       "target": "starts in or out of sync (symbolic)", "bindany": "BindAny's AnyState closure over every history of 3 (thorough 4) source transitions with any "
+                       "target": "starts in or out of sync (symbolic); plain target state, and an Err-prefixed one (toggles 1..2, thorough 3) whose "
+                       "Add pipe carries Exception, with Exception possibly active beforehand", "bindany": "BindAny's AnyState closure over every history of 3 (thorough 4) source transitions with any "
                        "target set over 3 states"},
-            "outside": ["the real target machine's negotiation (the target is a recording am.Api stub)", "BindServer consumers, Bind* assembly by reflection (Bind, BindMany, BindErr...)",
+            "outside": ["the real target machine's negotiation (the target is an am.Api stub over the states Foo / ErrFoo / Exception that implements the state queries "
+                        "Is/Is1/Any1/Not/Not1/IsErr/Has and the Add/Remove entry points; other Api methods are not available to the closures)", "BindServer consumers, Bind* assembly by reflection (Bind, BindMany, BindErr...)",
                         "network targets' RPC"],
             "assumptions": ["real add()/remove() closures of pkg/states/pipes; go statements become tasks whose execution point is chosen by the harness",
                             "natively the chosen schedule is enforced by gating the stub target's EvAdd/EvRemove1"]}
